@@ -62,6 +62,10 @@ func RenderODT(d Doc) Rendered {
 			}
 			odtChildren(&b, blk, cnt, i)
 			b.WriteString(`</text:h>`)
+		case "S": // a heading of level Lvl styled with style number Sty of the sheet
+			fmt.Fprintf(&b, `<text:h text:style-name="%s" text:outline-level="%d">`, odtSheetName(blk.Sty, d.Sheet), blk.Lvl)
+			odtChildren(&b, blk, cnt, i)
+			b.WriteString(`</text:h>`)
 		case "LI":
 			// a maximal run of items of one list becomes one text:list; deeper items
 			// are sub-lists inside the preceding item (ODF 1.2 part 1, 5.3)
@@ -115,9 +119,33 @@ func RenderODT(d Doc) Rendered {
 	fmt.Fprintf(&s, `<office:document-styles %s office:version="1.2"><office:styles>`, odfNS)
 	s.WriteString(`<style:style style:name="Standard" style:family="paragraph" style:class="text"/>`)
 	s.WriteString(`<style:style style:name="Heading" style:family="paragraph" style:parent-style-name="Standard" style:class="text"/>`)
-	for n := 1; n <= 6; n++ {
+	for n := 1; n <= 6 && len(d.Sheet) == 0; n++ { // (a document with its own sheet defines its heading styles itself)
 		fmt.Fprintf(&s, `<style:style style:name="Heading_20_%d" style:display-name="Heading %d" style:family="paragraph" style:parent-style-name="Heading" style:default-outline-level="%d" style:class="text"/>`, n, n, n)
 		fmt.Fprintf(&s, `<style:style style:name="Custom%da" style:display-name="Custom %c A" style:family="paragraph" style:parent-style-name="Heading_20_%d"/>`, n, 'A'+n-1, n)
+	}
+	for i, st := range d.Sheet {
+		name := odtSheetName(i+1, d.Sheet)
+		attrs := ""
+		switch st.Decl {
+		case "builtin":
+			attrs = fmt.Sprintf(` style:display-name="Heading %d" style:default-outline-level="%d" style:class="text"`, st.Lvl, st.Lvl)
+		case "bare": // the heading style name without a default outline level (the attribute is optional)
+			attrs = fmt.Sprintf(` style:display-name="Heading %d" style:class="text"`, st.Lvl)
+		case "outline":
+			attrs = fmt.Sprintf(` style:default-outline-level="%d"`, st.Lvl)
+		case "none":
+		default:
+			panic("wpw: style declaration " + st.Decl + " is not in the ODT alphabet")
+		}
+		switch {
+		case st.Based >= 1:
+			attrs += fmt.Sprintf(` style:parent-style-name="%s"`, odtSheetName(st.Based, d.Sheet))
+		case st.Based == -1:
+			attrs += ` style:parent-style-name="Standard"`
+		case st.Based == -2:
+			attrs += ` style:parent-style-name="Undefined_20_Style"`
+		}
+		fmt.Fprintf(&s, `<style:style style:name="%s" style:family="paragraph"%s/>`, name, attrs)
 	}
 	s.WriteString(`</office:styles><office:automatic-styles><style:page-layout style:name="pm1"><style:page-layout-properties fo:page-width="21cm" fo:page-height="29.7cm" fo:margin-top="2cm" fo:margin-bottom="2cm" fo:margin-left="2cm" fo:margin-right="2cm"/></style:page-layout></office:automatic-styles>`)
 	s.WriteString(`<office:master-styles><style:master-page style:name="Standard" style:page-layout-name="pm1">`)
@@ -221,4 +249,14 @@ func odtTable(b *strings.Builder, t Tbl, cnt *counter, blk, no int) {
 		b.WriteString(`</table:table-row>`)
 	}
 	b.WriteString(`</table:table>`)
+}
+
+// odtSheetName is the style:name of style n (1-based) of the sheet: the built-in
+// heading style name (Heading_20_N = "Heading N") for the declarations builtin and
+// bare, an opaque name otherwise.
+func odtSheetName(n int, sheet []Style) string {
+	if n >= 1 && n <= len(sheet) && (sheet[n-1].Decl == "builtin" || sheet[n-1].Decl == "bare") {
+		return fmt.Sprintf("Heading_20_%d", sheet[n-1].Lvl)
+	}
+	return fmt.Sprintf("S%d", n)
 }
